@@ -18,6 +18,9 @@
 //!   * rules whose action lists consist of workflow bookkeeping actions only (`W.k`: ScheduleRule / CompleteWorkflow /
 //!     SetWorkflowData), alone, next to rules that fire in the first passes only, mixed with Set actions, with no-loop
 //!     (`gen_workflow_actions`); the random sets draw `W.k` actions as well.
+//!   * (c02.rs) 2..4 activations queued by `activate_agenda_group` before one execute (`gen_multi_activate`); caller-owned undo
+//!     frames around the calls, rules writing flat keys and dotted paths of existing / missing objects (`gen_undo_frames`);
+//!     groups and rule names that are easy to confuse as strings (`gen_confusable_names`).
 #[path = "c02.rs"]
 #[allow(dead_code)]
 mod c02;
@@ -167,6 +170,18 @@ fn gen(rng: &mut Rng, n: usize, _tier: &str) -> Vec<String> {
     // the whole knowledge base replaced between executes (c02.rs): every rule of the new base takes part in the next call
     for _ in 0..(n / 15).max(60) {
         out.push(gen_kb_replace(rng));
+    }
+    // c02.rs: 2..4 activations queued by activate_agenda_group before one execute (every one of them is applied before the
+    // first pass); caller-owned undo frames around the calls (dotted-path writes under an open frame must return; a rollback
+    // restores the facts); agenda / activation groups and rule names that are easy to confuse as strings
+    for _ in 0..(n / 20).max(60) {
+        out.push(gen_multi_activate(rng));
+    }
+    for _ in 0..(n / 20).max(60) {
+        out.push(gen_undo_frames(rng));
+    }
+    for _ in 0..(n / 40).max(30) {
+        out.push(gen_confusable_names(rng));
     }
     out
 }
@@ -890,6 +905,7 @@ fn shrink3(case: &str) -> Vec<String> {
 }
 
 fn main() {
+    check_name_tables();
     if std::env::args().nth(1).as_deref() == Some("exec") {
         exec_main(exec_case, 5);
     } else {
